@@ -1,7 +1,8 @@
 """C17 — plotted model SEDs are the fitted models.
 
 Real side: cube package (`SEDCube.write`) -> `Fitter` at tabulated wavelengths -> `Fitter.fit` ->
-`plot(info | [infos] | file, output_dir=None, select_format=('N', k), sed_type=mode)` ->
+`plot(info | [infos] | file written with FitInfoFile | file written by sedfitter.fit(output_convolved=True),
+output_dir=None, select_format=(N|A|C|D|E|F, x), plot_max, plot_mode, sources, sed_type=mode)` ->
 `figures[name]['lines'].get_segments()`.
 
 Model side: driver op `curves` = `SF.curves` (Model/Plot.lean) in exact rationals on the package
@@ -28,24 +29,34 @@ from . import packages as pk
 
 PID = 'C17'
 MODES = ['interp', 'largest', 'largest+smallest', 'all']
-RULE = ('cases = (cube package with 1 or 3-5 apertures, 4-12 wavelengths in either stored order, 2-6 models; '
+RULE = ('cases = (cube package with no aperture list, a list of one, two or 3-5 apertures, 4-12 wavelengths in either stored order, 2-6 models; '
         '3-5 monochromatic filters at tabulated wavelengths with angular apertures (repeated values allowed); '
         'model names stored in the cube in arbitrary (shuffled, un-padded numbered) order; extinction law tabulated in '
-        'micron, nm, Angstrom or cm; distance range with theta*d inside or above the aperture table; 1-2 sources; k = 1..5 selected fits; '
-        'results passed as object or as file); every case is plotted in all four display modes; a case is '
+        'micron, nm, Angstrom or cm; distance range with theta*d inside or above the aperture table; 1-2 sources; selector N/A/C/D/E/F aimed at k = 1..5 selected fits, optional plot_max, plot_mode A or I, '
+        'optional sources=[...] subset; filter wavelengths / apertures / A_V range start in varied units and values; '
+        'results passed as object, as FitInfoFile file or as the file fit(output_convolved=True) writes); every case is plotted in all four display modes; a case is '
         'non-trivial when at least one pass-through point (fit x filter x mode) is checked; distinct = '
         'distinct canonical hash of the generated inputs')
 REQUIRED_BRANCHES = ['mode_interp', 'mode_largest', 'mode_largest+smallest', 'mode_all',
                      'single_aperture', 'multi_aperture', 'form_object', 'form_file',
                      'k1', 'k_gt1', 'k_exceeds_models', 'inside_table', 'above_table',
                      'repeated_filter_aperture', 'distinct_filter_apertures', 'two_sources', 'ext_unit_micron', 'ext_unit_other',
-                     'ext_unit_other_file_av_nonzero', 'cube_names_unsorted', 'stored_increasing_wav', 'stored_decreasing_wav']
+                     'ext_unit_other_file_av_nonzero', 'cube_names_unsorted', 'aperture_list_of_one', 'two_apertures',
+                     'selector_N', 'selector_other', 'plot_max', 'plot_mode_I', 'sources_subset', 'form_fitfile',
+                     'filter_units_other', 'av_range_not_from_zero', 'stored_increasing_wav', 'stored_decreasing_wav']
 ASSUMPTIONS = ['IEEE rounding is not modelled: model-vs-implementation tolerance 1e-9 relative on curve values',
                'pass-through against the stored predicted flux is checked to 2e-3 relative (the plot uses KPC = 3.086e21 cm, '
                'the package distance is astropy\'s kpc = 3.0857e21 cm: ratio^2 = 1 - 2.1e-4)',
                'theta*dmin is kept >= 1.001 x the smallest tabulated aperture (the raise-below decision is discrete; '
                'the property\'s domain is "never below the table")',
-               'matplotlib is only a container: LineCollection.get_segments() returns the arrays that were appended']
+               'matplotlib is only a container: LineCollection.get_segments() returns the arrays that were appended',
+               'plot_mode=\'I\' with output_dir=None: plot() builds one collection per fit and the returned dictionary keeps only '
+               'the last one built (the best fit); the count is then 1 fit x apertures shown, and pass-through is checked for fit 0',
+               'packages with several apertures are fitted aperture-dependent (models.conf aperture_dependent = yes): with '
+               'aperture_dependent = no the fitter uses the first aperture with a free scale while plot() interpolates in '
+               'aperture, and its scale is a dimensionless Quantity that SED.interpolate rejects (reported, not generated)',
+               'selector thresholds (C, D, E, F) are placed midway between two attained statistic values of the first source',
+               'files written by fit() hold float32-precision predictions (memmap): stored-vs-model tolerance 1e-5 there']
 EXHAUSTIVE = {'quick': True, 'thorough': True}   # all 4 modes x {1, >1 apertures} x {object, file} in every run
 TRUSTED_EXTRA = ['matplotlib LineCollection stores and returns the segments unchanged']
 N = {'quick': 160, 'thorough': 6000}
@@ -59,6 +70,8 @@ def gen_case(rng, directed=None):
     nw = rng.randint(4, 12)
     nm = rng.randint(2, 6)
     multi = directed.get('multi', rng.random() < 0.65)
+    napkind = directed.get('napkind', (rng.choice(['many', 'many', 'two']) if multi else rng.choice(['none', 'none', 'one'])))
+    multi = napkind in ('two', 'many')
     wav = set()
     while len(wav) < nw:
         wav.add(nice(rng, 0.3, 500., 3))
@@ -66,15 +79,14 @@ def gen_case(rng, directed=None):
     stored = directed.get('stored', rng.choice(['inc', 'dec']))
     if stored == 'dec':
         wav = wav[::-1]
-    if multi:
-        nap = rng.randint(3, 5)
+    if napkind == 'none':
+        nap, aps = 1, None
+    else:
+        nap = {'one': 1, 'two': 2}.get(napkind) or rng.randint(3, 5)
         aps = set()
         while len(aps) < nap:
             aps.add(nice(rng, 50., 5e4, 2))
         aps = sorted(aps)
-    else:
-        nap = 1
-        aps = None
     val = [[[nice(rng, 1e-2, 1e3, 4) for _ in range(nw)] for _ in range(nap)] for _ in range(nm)]
     nf = rng.randint(3, min(5, nw))
     fidx = rng.sample(range(nw), nf)
@@ -96,7 +108,8 @@ def gen_case(rng, directed=None):
     top = nice(rng, 1e3, 1e5, 3)
     beta = rng.uniform(0.4, 1.6)
     chi = [float('%.3g' % (top * (w / 0.05) ** (-beta) * 10 ** rng.uniform(-0.15, 0.15))) for w in tw]
-    av_range = [0., float(rng.choice([5, 10, 30]))]
+    av_lo = float(directed.get('av_lo', rng.choice([0., 0., 0., -5., 2.5])))
+    av_range = [av_lo, av_lo + float(rng.choice([5, 10, 30]))]
     where = directed.get('where', rng.choice(['inside', 'above', 'mixed']))
     if multi:
         tmin, tmax = min(theta), max(theta)
@@ -147,7 +160,7 @@ def gen_case(rng, directed=None):
                 err.append(float('%.3g' % (f * nice(rng, 0.01, 0.3, 2))))
         sources.append(dict(name='src%d' % si, flags=flags, flux=flux, err=err))
     k = directed.get('k', rng.randint(1, 5))
-    forms = directed.get('forms', [rng.choice(['object', 'file'])])
+    forms = directed.get('forms', [rng.choice(['object', 'file', 'fitfile'])])
     # model names in the cube: arbitrary order, un-padded numbers (m_8, m_9, m_10 sort differently as strings)
     start = rng.choice([1, 7, 8, 97, 98])
     names = ['m_%d' % (start + i) for i in range(nm)]
@@ -155,26 +168,41 @@ def gen_case(rng, directed=None):
         rng.shuffle(names)
     # unit in which the extinction law's wavelength column is tabulated
     ext_unit = directed.get('ext_unit', rng.choice(['micron', 'micron', 'nm', 'Angstrom', 'cm']))
+    # how the fits are selected and shown
+    select = directed.get('select', rng.choice(['N', 'N', 'N', 'A', 'C', 'D', 'E', 'F']))
+    plot_max = directed.get('plot_max', rng.choice([None, None, None, 1, 2, 3]))
+    plot_mode = directed.get('plot_mode', rng.choice(['A', 'A', 'A', 'I']))
+    subset = directed.get('subset', rng.choice([None, None, None, 'first', 'absent']))
+    # units in which the filter wavelengths and the angular apertures are handed to the Fitter
+    wav_unit = directed.get('wav_unit', rng.choice(['micron', 'micron', 'nm', 'Angstrom', 'cm', 'm']))
+    ap_unit = directed.get('ap_unit', rng.choice(['arcsec', 'arcsec', 'arcmin', 'deg', 'rad']))
     return dict(wav=wav, aps=aps, val=val, fidx=fidx, theta=theta, tab_w=tw, tab_chi=chi, av=av_range,
-                drange=[dmin, dmax], step=step, sources=sources, k=k, forms=forms, names=names, ext_unit=ext_unit)
+                drange=[dmin, dmax], step=step, sources=sources, k=k, forms=forms, names=names, ext_unit=ext_unit,
+                select=select, plot_max=plot_max, plot_mode=plot_mode, subset=subset, wav_unit=wav_unit, ap_unit=ap_unit)
 
 
+PLAIN = dict(select='N', plot_max=None, plot_mode='A', subset=None, wav_unit='micron', ap_unit='arcsec', av_lo=0.)
 DIRECTED = [
-    dict(multi=False, k=1, forms=['object', 'file'], nsrc=1, stored='inc', repeat=False),
-    dict(multi=True, k=1, forms=['object', 'file'], nsrc=1, where='inside', stored='dec', repeat=False),
-    dict(multi=True, k=3, forms=['object', 'file'], nsrc=2, where='above', repeat=True, stored='inc'),
-    dict(multi=False, k=5, forms=['object', 'file'], nsrc=2, repeat=True, stored='dec'),
-    dict(multi=True, k=5, forms=['object', 'file'], nsrc=1, where='mixed'),
-    dict(multi=True, k=2, forms=['file'], nsrc=2, where='inside', repeat=True),
-    dict(multi=True, k=7, forms=['object'], nsrc=1, where='mixed'),
-    dict(multi=False, k=7, forms=['file'], nsrc=1),
-    dict(multi=True, k=3, forms=['object', 'file'], nsrc=1, where='inside', ext_unit='nm', names='shuffled'),
-    dict(multi=False, k=2, forms=['file'], nsrc=2, ext_unit='Angstrom', names='shuffled'),
-    dict(multi=True, k=4, forms=['file'], nsrc=1, where='mixed', ext_unit='cm', names='numeric'),
-    dict(multi=False, k=3, forms=['object'], nsrc=1, ext_unit='nm', names='shuffled'),
+    dict(PLAIN, multi=False, napkind='none', k=1, forms=['object', 'file'], nsrc=1, stored='inc', repeat=False, ext_unit='micron'),
+    dict(PLAIN, multi=True, napkind='many', k=1, forms=['object', 'file'], nsrc=1, where='inside', stored='dec', repeat=False, ext_unit='micron'),
+    dict(PLAIN, multi=True, napkind='many', k=3, forms=['object', 'file'], nsrc=2, where='above', repeat=True, stored='inc', ext_unit='micron'),
+    dict(PLAIN, multi=False, napkind='none', k=5, forms=['object', 'file'], nsrc=2, repeat=True, stored='dec', ext_unit='micron'),
+    dict(PLAIN, multi=True, napkind='many', k=5, forms=['object', 'file'], nsrc=1, where='mixed', ext_unit='micron'),
+    dict(PLAIN, multi=True, napkind='many', k=2, forms=['file'], nsrc=2, where='inside', repeat=True, ext_unit='micron'),
+    dict(PLAIN, multi=True, napkind='many', k=7, forms=['object'], nsrc=1, where='mixed', ext_unit='micron'),
+    dict(PLAIN, multi=False, napkind='none', k=7, forms=['file'], nsrc=1, ext_unit='micron'),
+    dict(PLAIN, multi=True, napkind='many', k=3, forms=['object', 'file'], nsrc=1, where='inside', ext_unit='nm', names='shuffled'),
+    dict(PLAIN, multi=False, napkind='none', k=2, forms=['file'], nsrc=2, ext_unit='Angstrom', names='shuffled'),
+    dict(PLAIN, multi=True, napkind='many', k=4, forms=['file'], nsrc=1, where='mixed', ext_unit='cm', names='numeric'),
+    dict(PLAIN, multi=False, napkind='none', k=3, forms=['object'], nsrc=1, ext_unit='nm', names='shuffled'),
+    dict(PLAIN, multi=True, napkind='two', k=3, forms=['object', 'fitfile'], nsrc=1, where='inside', repeat=False),
+    dict(PLAIN, multi=False, napkind='one', k=2, forms=['object', 'file', 'fitfile'], nsrc=2),
+    dict(PLAIN, multi=True, napkind='many', k=2, forms=['object', 'file'], nsrc=2, select='F', plot_max=None, subset='first', wav_unit='nm', ap_unit='arcmin', av_lo=-5.),
+    dict(PLAIN, multi=True, napkind='two', k=3, forms=['file', 'fitfile'], nsrc=1, select='C', plot_max=2, wav_unit='Angstrom', ap_unit='deg', av_lo=2.5),
+    dict(PLAIN, multi=False, napkind='none', k=4, forms=['object'], nsrc=2, select='D', plot_mode='I', subset='absent', wav_unit='cm', ap_unit='rad'),
+    dict(PLAIN, multi=True, napkind='many', k=3, forms=['fitfile'], nsrc=1, select='E', plot_mode='I', where='mixed', wav_unit='m'),
+    dict(PLAIN, multi=True, napkind='many', k=5, forms=['object', 'file'], nsrc=1, select='A', plot_max=1),
 ]
-for _d in DIRECTED[:8]:
-    _d.setdefault('ext_unit', 'micron')
 
 
 def gen_cases(seed, tier):
@@ -197,38 +225,169 @@ def make_ext(case):
     return pk.make_extinction(w, case['tab_chi'], wav_unit=unit)
 
 
-def run_impl(case, d):
-    """returns (infos, {(form, mode): figures}) from the real code"""
+def filter_quantities(case):
+    """(filter wavelengths, apertures) as handed to the Fitter, in the case's units"""
     from astropy import units as u
-    from sedfitter.plot import plot
+    wu = u.Unit(case.get('wav_unit', 'micron'))
+    au = u.Unit(case.get('ap_unit', 'arcsec'))
+    fw = [(case['wav'][i] * u.micron).to(wu) for i in case['fidx']]
+    ap = (np.array(case['theta'], dtype=float) * u.arcsec).to(au)
+    return fw, ap
+
+
+def theta_eff(case):
+    """the apertures in arcsec as the Fitter derives them from what it was given"""
+    from astropy import units as u
+    return [float(x) for x in filter_quantities(case)[1].to(u.arcsec).value]
+
+
+def fwav_eff(case):
+    """the filter wavelengths in micron as plot() derives them from the stored filters"""
+    from astropy import units as u
+    return [float(q.to(u.micron).value) for q in filter_quantities(case)[0]]
+
+
+class BuildError(Exception):
+    pass
+
+
+def build(case, d):
+    """package, fitter, fits and result files: everything that happens before plot() is called.
+    returns {form: (argument for plot, [fit_arrays per source], [source names])}"""
+    from astropy import units as u
+    from sedfitter.fit import Fitter
     from sedfitter.fit_info import FitInfoFile
     names = names_of(case)
     val = np.array(case['val'], dtype=float)
     pk.write_cube_package(d, names, case['wav'], val, val * 0.1, apertures_au=case['aps'])
     ext = make_ext(case)
-    fnames = [case['wav'][i] * u.micron for i in case['fidx']]
-    fitter = pk.make_fitter(d, fnames, case['theta'], ext, case['av'], distance_range_kpc=case['drange'])
-    infos = []
-    for s in case['sources']:
-        src = pk.make_source(s['name'], s['flags'], s['flux'], s['err'])
-        with common.quiet():
-            infos.append(fitter.fit(src))
+    fw, ap = filter_quantities(case)
     out = {}
+    infos = None
+    if any(f in ('object', 'file') for f in case['forms']):
+        with common.quiet():
+            fitter = Fitter(fw, ap, d, extinction_law=ext, av_range=tuple(case['av']),
+                            distance_range=np.array(case['drange'], dtype=float) * u.kpc, use_memmap=False)
+        infos = []
+        for s in case['sources']:
+            src = pk.make_source(s['name'], s['flags'], s['flux'], s['err'])
+            with common.quiet():
+                infos.append(fitter.fit(src))
     for form in case['forms']:
         if form == 'object':
-            arg = infos[0] if len(infos) == 1 else list(infos)
-        else:
-            arg = os.path.join(d, 'fits_%s.fitinfo' % form)
-            fo = FitInfoFile(arg, 'w')
+            out[form] = (infos[0] if len(infos) == 1 else list(infos), [pk.fit_arrays(i) for i in infos])
+        elif form == 'file':
+            path = os.path.join(d, 'fits_file.fitinfo')
+            fo = FitInfoFile(path, 'w')
             for info in infos:
                 fo.write(info)
             fo.close()
-        for mode in MODES:
+            out[form] = (path, [pk.fit_arrays(i) for i in infos])
+        else:                                    # the file sedfitter.fit() itself writes, predictions kept
+            from sedfitter import fit
+            data = os.path.join(d, 'data.txt')
+            with open(data, 'w') as fh:
+                for s in case['sources']:
+                    fh.write('%s 0.0 0.0 %s %s\n' % (s['name'], ' '.join(str(x) for x in s['flags']),
+                                                   ' '.join('%r %r' % (a, b) for a, b in zip(s['flux'], s['err']))))
+            path = os.path.join(d, 'fits_fitfile.fitinfo')
             with common.quiet():
-                figs = plot(arg, output_dir=None, select_format=('N', case['k']), sed_type=mode)
-            out[(form, mode)] = {name: [np.array(sg, dtype=float) for sg in figs[name]['lines'].get_segments()]
-                                 for name in figs if 'lines' in figs[name]}
-    return infos, out
+                fit(data, fw, ap, d, path, n_data_min=1, extinction_law=ext, av_range=tuple(case['av']),
+                    distance_range=np.array(case['drange'], dtype=float) * u.kpc, output_format=('A', 0),
+                    output_convolved=True)
+            recs = []
+            fin = FitInfoFile(path, 'r')
+            for info in fin:
+                recs.append(pk.fit_arrays(info))
+            fin.close()
+            if len(recs) != len(case['sources']) or any(r['model_fluxes'] is None for r in recs):
+                raise BuildError('fit() wrote %d records for %d sources / without predicted fluxes' % (len(recs), len(case['sources'])))
+            out[form] = (path, recs)
+    return out
+
+
+def statistic(kind, chi2, n_data):
+    chi2 = np.asarray(chi2, dtype=float)
+    if kind == 'C':
+        return chi2
+    if kind == 'D':
+        return chi2 - chi2[0]
+    if kind == 'E':
+        return chi2 / n_data
+    return (chi2 - chi2[0]) / n_data
+
+
+def n_data_of(src):
+    return sum(1 for f in src['flags'] if f in (1, 4))
+
+
+def selector(case, recs):
+    """(select_format, [number of fits it selects per source, after plot_max]).  Thresholds are placed between two
+    attained values of the first source's statistic so that about k fits are selected"""
+    kind = case.get('select', 'N')
+    nmod = len(case['val'])
+    if kind == 'N':
+        fmt = ('N', case['k'])
+        ns = [min(case['k'], nmod) for _ in recs]
+    elif kind == 'A':
+        fmt = ('A', 0)
+        ns = [nmod for _ in recs]
+    else:
+        st = statistic(kind, recs[0]['chi2'], n_data_of(case['sources'][0]))
+        j = max(1, min(case['k'], nmod))
+        thr = float(0.5 * (st[j - 1] + st[j])) if j < nmod else float(st[-1] * 1.5 + 1.)
+        allst = [statistic(kind, r['chi2'], n_data_of(s)) for r, s in zip(recs, case['sources'])]
+        for _ in range(20):
+            if all(np.all(np.abs(x - thr) > 1e-9 * (1. + abs(thr))) for x in allst):
+                break
+            thr *= 1. + 1e-6
+        fmt = (kind, thr)
+        ns = [int(np.sum(x <= thr)) for x in allst]
+    if case.get('plot_max'):
+        ns = [min(n, case['plot_max']) for n in ns]
+    return fmt, ns
+
+
+def plotted_sources(case):
+    """(value of plot()'s `sources` argument, names of the sources it lets through)"""
+    allnames = [s['name'] for s in case['sources']]
+    sub = case.get('subset')
+    if sub == 'first':
+        return [allnames[0]], [allnames[0]]
+    if sub == 'absent':
+        return ['no_such_source'], []
+    return None, allnames
+
+
+def drawn_fits(case, n):
+    """fit indices whose curves the returned collection holds, in the order they are appended"""
+    if n == 0:
+        return []
+    if case.get('plot_mode', 'A') == 'I':
+        return [0]              # one collection per fit; the dictionary keeps the last one built: the best fit
+    return list(range(n - 1, -1, -1))
+
+
+def run_plots(case, built):
+    """{(form, mode): (figures as {name: segments or None}, select_format, ns)}"""
+    from sedfitter.plot import plot
+    out = {}
+    srcarg, _ = plotted_sources(case)
+    for form, (arg, recs) in built.items():
+        fmt, ns = selector(case, recs)
+        for mode in MODES:
+            kw = dict(output_dir=None, select_format=fmt, sed_type=mode)
+            if case.get('plot_max'):
+                kw['plot_max'] = case['plot_max']
+            if case.get('plot_mode', 'A') != 'A':
+                kw['plot_mode'] = case['plot_mode']
+            if srcarg is not None:
+                kw['sources'] = srcarg
+            with common.quiet():
+                figs = plot(arg, **kw)
+            out[(form, mode)] = ({name: ([np.array(sg, dtype=float) for sg in figs[name]['lines'].get_segments()]
+                                         if 'lines' in figs[name] else None) for name in figs}, fmt, ns)
+    return out
 
 
 def n_shown(case, mode):
@@ -237,12 +396,12 @@ def n_shown(case, mode):
         return 1
     if mode == 'largest+smallest':
         return 2
-    return len(set(case['theta']))
+    return len(set(theta_eff(case)))
 
 
 def shown_index(case, mode, j):
     """index (within one fit's block of curves) of the curve drawn for filter j's aperture, or None"""
-    th = case['theta']
+    th = theta_eff(case)
     if mode == 'interp':
         return 0
     if mode == 'largest':
@@ -254,24 +413,31 @@ def shown_index(case, mode, j):
     return sorted(set(th)).index(th[j])
 
 
-def property_check(case, infos, figs):
+def property_check(case, built, figs):
     """the statement of C17 evaluated on the real outputs only.  returns (ok, detail, n_points)"""
     npts = 0
     wav_seen = sorted(case['wav'], reverse=True)          # increasing frequency, as plot reads the cube
-    for (form, mode), per_src in figs.items():
-        for info in infos:
-            name = info.source.name
-            a = pk.fit_arrays(info)
-            n = min(case['k'], len(a['chi2']))
+    _, let_through = plotted_sources(case)
+    for (form, mode), (per_src, fmt, ns) in figs.items():
+        recs = built[form][1]
+        what = 'form=%s mode=%s select_format=%r plot_max=%r plot_mode=%r' % (
+            form, mode, fmt, case.get('plot_max'), case.get('plot_mode', 'A'))
+        if sorted(per_src) != sorted(let_through):
+            return False, '%s sources=%r: figures returned for %r; expected %r' % (
+                what, plotted_sources(case)[0], sorted(per_src), sorted(let_through)), npts
+        for si, (a, s) in enumerate(zip(recs, case['sources'])):
+            name = s['name']
+            if name not in let_through:
+                continue
+            n = ns[si]
             nc = n_shown(case, mode)
-            segs = per_src.get(name)
-            if segs is None:
-                return False, 'form=%s mode=%s: no curves returned for source %s' % (form, mode, name), npts
-            if len(segs) != n * nc:
-                return False, ('form=%s mode=%s source=%s: %d curves drawn; property: %d selected fits x %d apertures shown = %d'
-                               % (form, mode, name, len(segs), n, nc, n * nc)), npts
-            for i in range(n):
-                block = segs[(n - 1 - i) * nc:(n - i) * nc]     # best fit (i = 0) is the last block
+            order = drawn_fits(case, n)
+            segs = per_src.get(name) or []
+            if len(segs) != len(order) * nc:
+                return False, ('%s source=%s: %d curves drawn; property: %d fits shown (of %d selected) x %d apertures shown = %d'
+                               % (what, name, len(segs), len(order), n, nc, len(order) * nc)), npts
+            for b, i in enumerate(order):
+                block = segs[b * nc:(b + 1) * nc]              # the best fit (i = 0) is the last block
                 for j, wi in enumerate(case['fidx']):
                     c = shown_index(case, mode, j)
                     if c is None:
@@ -279,15 +445,15 @@ def property_check(case, infos, figs):
                     lam = case['wav'][wi]
                     row = wav_seen.index(lam)
                     seg = block[c]
-                    if seg.shape != (len(case['wav']), 2) or seg[row, 0] != lam:
-                        return False, ('form=%s mode=%s source=%s fit %d: curve does not list wavelength %r at row %d: %r'
-                                       % (form, mode, name, i, lam, row, seg[:, 0].tolist())), npts
+                    if seg.shape != (len(case['wav']), 2) or not abs(seg[row, 0] - lam) <= 1e-12 * lam:
+                        return False, ('%s source=%s fit %d: curve does not list wavelength %r at row %d: %r'
+                                       % (what, name, i, lam, row, seg[:, 0].tolist())), npts
                     expect = 10. ** a['model_fluxes'][i, j] * (C_LIGHT_UM / lam) * C_UNIT
                     npts += 1
                     if not abs(seg[row, 1] - expect) <= 2e-3 * abs(expect):
-                        return False, ('form=%s mode=%s source=%s fit %d (model %s, sc=%r, av=%r) filter %d (%.4g um, %r arcsec): '
+                        return False, ('%s source=%s fit %d (model %s, sc=%r, av=%r) filter %d (%.4g um, %r arcsec): '
                                        'curve value %r; stored predicted flux 10**%r mJy -> %r erg/cm2/s (rel. diff %.3g)'
-                                       % (form, mode, name, i, a['name'][i], float(a['sc'][i]), float(a['av'][i]), j, lam,
+                                       % (what, name, i, a['name'][i], float(a['sc'][i]), float(a['av'][i]), j, lam,
                                           case['theta'][j], float(seg[row, 1]), float(a['model_fluxes'][i, j]), float(expect),
                                           abs(seg[row, 1] / expect - 1))), npts
     return True, '', npts
@@ -300,20 +466,21 @@ def ctx_tokens(case):
     d_old = (1. * u.kpc).to(u.cm).value
     aps = case['aps'] or []
     t = [rat(C_UNIT), rat(d_old), rat(KPC_PLOT), rats(aps), str(len(case['fidx']))]
-    for wi, th in zip(case['fidx'], case['theta']):
-        t += [rat(case['wav'][wi]), rat(th)]
+    for w, th in zip(fwav_eff(case), theta_eff(case)):
+        t += [rat(w), rat(th)]
     return t
 
 
-def model_curves(case, mode, a, n):
+def model_curves(case, mode, a, fits_best_first):
+    """`SF.curves` for the given fits (best first; the model reverses them like the plotting loop)"""
     names = names_of(case)
     wav_seen = sorted(case['wav'], reverse=True)
     line = ['curves', mode] + ctx_tokens(case)
     line += [rat(0.55), str(len(case['tab_w']))]
     for w, c in zip(case['tab_w'], case['tab_chi']):
         line += [rat(w), rat(c)]
-    line.append(str(n))
-    for i in range(n):
+    line.append(str(len(fits_best_first)))
+    for i in fits_best_first:
         m = names.index(a['name'][i])
         line += [rat(a['sc'][i]), rat(a['av'][i]), str(len(wav_seen))]
         for lam in wav_seen:
@@ -335,10 +502,11 @@ def model_through(case, a, i, ks):
     """theorem right-hand side per filter: (pred, curve value)"""
     names = names_of(case)
     m = names.index(a['name'][i])
+    th = theta_eff(case)
     line = ['curve'] + ctx_tokens(case) + [rat(a['sc'][i]), rat(a['av'][i]), str(len(case['fidx']))]
     for j, wi in enumerate(case['fidx']):
         lam = case['wav'][wi]
-        line += [rat(case['theta'][j]), rat(ks[j]), rat(C_LIGHT_UM / lam),
+        line += [rat(th[j]), rat(ks[j]), rat(C_LIGHT_UM / lam),
                  rats([case['val'][m][ia][wi] for ia in range(len(case['val'][m]))])]
     t = common.driver().ask(' '.join(line))
     n = t.nat()
@@ -348,98 +516,137 @@ def model_through(case, a, i, ks):
 def run_case(case):
     d = tempfile.mkdtemp(prefix='c17_')
     branches = set()
+    key = common.canon_hash(case)
     try:
         try:
-            infos, figs = run_impl(case, d)
+            built = build(case, d)
         except Exception as e:
             import traceback
-            return CaseResult(False, violates=True, key=common.canon_hash(case),
-                              detail='implementation raised on an in-domain plot request: %r\n%s'
+            # nothing of C17 has been exercised yet: package, Fitter, fit and result files belong to other properties
+            return CaseResult(False, violates=None, key=key,
+                              detail='could not build the package / fits for the plot (not a C17 verdict): %r\n%s'
                                      % (e, traceback.format_exc()[-1500:]))
-        ok, detail, npts = property_check(case, infos, figs)
+        try:
+            figs = run_plots(case, built)
+        except Exception as e:
+            import traceback
+            return CaseResult(False, violates=True, key=key,
+                              detail='plot() raised on an in-domain request: %r\n%s' % (e, traceback.format_exc()[-1500:]))
+        ok, detail, npts = property_check(case, built, figs)
         if not ok:
-            return CaseResult(False, detail='property fails on the real code: ' + detail, violates=True,
-                              key=common.canon_hash(case))
+            return CaseResult(False, detail='property fails on the real code: ' + detail, violates=True, key=key)
         # ---- correspondence with the Lean model
-        multi = case['aps'] is not None
+        aps = case['aps']
+        multi = aps is not None and len(aps) > 1
         branches.add('multi_aperture' if multi else 'single_aperture')
+        if aps is not None and len(aps) == 1:
+            branches.add('aperture_list_of_one')
+        if aps is not None and len(aps) == 2:
+            branches.add('two_apertures')
         branches.add('stored_increasing_wav' if case['wav'][0] < case['wav'][-1] else 'stored_decreasing_wav')
         branches.add('repeated_filter_aperture' if len(set(case['theta'])) < len(case['theta'])
                      else 'distinct_filter_apertures')
         if len(case['sources']) > 1:
             branches.add('two_sources')
         nm = len(case['val'])
-        branches.add('k1' if case['k'] == 1 else 'k_gt1')
-        if case['k'] > nm:
-            branches.add('k_exceeds_models')
+        kind = case.get('select', 'N')
+        branches.add('selector_N' if kind == 'N' else 'selector_other')
+        branches.add('selector_' + kind)
+        if kind == 'N':
+            branches.add('k1' if case['k'] == 1 else 'k_gt1')
+            if case['k'] > nm:
+                branches.add('k_exceeds_models')
+        if case.get('plot_max'):
+            branches.add('plot_max')
+        if case.get('plot_mode', 'A') == 'I':
+            branches.add('plot_mode_I')
+        if case.get('subset'):
+            branches.add('sources_subset')
+        if case.get('wav_unit', 'micron') != 'micron' or case.get('ap_unit', 'arcsec') != 'arcsec':
+            branches.add('filter_units_other')
+        if case['av'][0] != 0:
+            branches.add('av_range_not_from_zero')
         other_unit = case.get('ext_unit', 'micron') != 'micron'
         branches.add('ext_unit_other' if other_unit else 'ext_unit_micron')
-        if other_unit and 'file' in case['forms'] and any(float(x) != 0. for info in infos for x in np.asarray(info.av, dtype=float)[:case['k']]):
-            branches.add('ext_unit_other_file_av_nonzero')
         nn = names_of(case)
         branches.add('cube_names_sorted' if nn == sorted(nn) else 'cube_names_unsorted')
-        from astropy import units as u
-        for info in infos:
-            a = pk.fit_arrays(info)
-            n = min(case['k'], len(a['chi2']))
-            if multi:
-                for i in range(n):
-                    for th in case['theta']:
-                        x = th * 10. ** a['sc'][i] * 1000.
-                        branches.add('above_table' if x > case['aps'][-1] else 'inside_table')
-            # theorem right-hand side vs stored predicted flux vs model curve
-            t = common.driver().ask('getav %s %d %s %s' % (
-                rat(0.55), len(case['tab_w']),
-                ' '.join('%s %s' % (rat(w), rat(c)) for w, c in zip(case['tab_w'], case['tab_chi'])),
-                rats([case['wav'][wi] for wi in case['fidx']])))
-            ks = t.rats()
-            thr = [model_through(case, a, i, ks) for i in range(n)]
-            for i in range(n):
-                for j in range(len(case['fidx'])):
-                    if not common.close(a['model_fluxes'][i, j], thr[i][j][0], 1e-9):
-                        return CaseResult(False, violates=None, branches=branches, key=common.canon_hash(case),
-                                          detail='stored predicted log flux of fit %d filter %d: impl %r, model predStored %r'
-                                                 % (i, j, float(a['model_fluxes'][i, j]), float(thr[i][j][0])))
-            for mode in MODES:
-                exp = model_curves(case, mode, a, n)
-                if isinstance(exp, str):
-                    return CaseResult(False, violates=None, branches=branches, key=common.canon_hash(case),
-                                      detail='model raises %s in mode %s but the implementation returned curves' % (exp, mode))
-                for form in case['forms']:
+        _, let_through = plotted_sources(case)
+        t = common.driver().ask('getav %s %d %s %s' % (
+            rat(0.55), len(case['tab_w']),
+            ' '.join('%s %s' % (rat(w), rat(c)) for w, c in zip(case['tab_w'], case['tab_chi'])),
+            rats([case['wav'][wi] for wi in case['fidx']])))
+        ks = t.rats()
+        wav_seen = sorted(case['wav'], reverse=True)
+        th = theta_eff(case)
+        # the theorem speaks of a filter wavelength EQUAL to a tabulated one; a wavelength handed over in another unit
+        # comes back one rounding off the knot, and the composite curve is then interpolated next to it
+        knot_tol = 1e-12 if fwav_eff(case) == [case['wav'][i] for i in case['fidx']] else 1e-8
+        for form, (arg, recs) in built.items():
+            stored_tol = 1e-5 if form == 'fitfile' else 1e-9
+            for si, (a, s) in enumerate(zip(recs, case['sources'])):
+                if s['name'] not in let_through:
+                    continue
+                ns = figs[(form, MODES[0])][2]
+                n = ns[si]
+                if n == 0:
+                    branches.add('zero_fits_selected')
+                shown = sorted(drawn_fits(case, n))                 # best first
+                if other_unit and form != 'object' and any(float(a['av'][i]) != 0. for i in shown):
+                    branches.add('ext_unit_other_file_av_nonzero')
+                if multi:
+                    for i in shown:
+                        for tj in th:
+                            x = tj * 10. ** a['sc'][i] * 1000.
+                            branches.add('above_table' if x > aps[-1] else 'inside_table')
+                # theorem right-hand side vs stored predicted flux vs model curve
+                thr = {i: model_through(case, a, i, ks) for i in shown}
+                for i in shown:
+                    for j in range(len(case['fidx'])):
+                        if not common.close(a['model_fluxes'][i, j], thr[i][j][0], stored_tol):
+                            return CaseResult(False, violates=None, branches=branches, key=key,
+                                              detail='form %s: stored predicted log flux of fit %d filter %d: impl %r, model predStored %r'
+                                                     % (form, i, j, float(a['model_fluxes'][i, j]), float(thr[i][j][0])))
+                for mode in MODES:
+                    exp = model_curves(case, mode, a, shown)
+                    if isinstance(exp, str):
+                        return CaseResult(False, violates=None, branches=branches, key=key,
+                                          detail='model raises %s in mode %s but the implementation returned curves' % (exp, mode))
                     branches.add('mode_' + mode)
                     branches.add('form_' + form)
-                    segs = figs[(form, mode)][info.source.name]
+                    segs = figs[(form, mode)][0].get(s['name']) or []
                     if len(segs) != len(exp):
-                        return CaseResult(False, violates=None, branches=branches, key=common.canon_hash(case),
+                        return CaseResult(False, violates=None, branches=branches, key=key,
                                           detail='mode %s form %s: impl draws %d curves, model %d' % (mode, form, len(segs), len(exp)))
                     for ci, (sg, ex) in enumerate(zip(segs, exp)):
                         if sg.shape[0] != len(ex):
-                            return CaseResult(False, violates=None, branches=branches, key=common.canon_hash(case),
+                            return CaseResult(False, violates=None, branches=branches, key=key,
                                               detail='mode %s curve %d: %d points vs model %d' % (mode, ci, sg.shape[0], len(ex)))
                         for p, (x, y) in enumerate(ex):
-                            if sg[p, 0] != float(x) or not common.close(sg[p, 1], y, 1e-9, scale=0.):
-                                return CaseResult(False, violates=None, branches=branches, key=common.canon_hash(case),
+                            if not abs(sg[p, 0] - float(x)) <= 1e-12 * float(x) or not common.close(sg[p, 1], y, 1e-9, scale=0.):
+                                return CaseResult(False, violates=None, branches=branches, key=key,
                                                   detail=('mode %s form %s source %s curve %d point %d: impl (%r, %r), model (%r, %r)'
-                                                          % (mode, form, info.source.name, ci, p, float(sg[p, 0]), float(sg[p, 1]),
+                                                          % (mode, form, s['name'], ci, p, float(sg[p, 0]), float(sg[p, 1]),
                                                              float(x), float(y))))
-                # model curve through the theorem's right-hand side (fit i, filter j)
-                nc = n_shown(case, mode)
-                wav_seen = sorted(case['wav'], reverse=True)
-                for i in range(n):
-                    for j, wi in enumerate(case['fidx']):
-                        c = shown_index(case, mode, j)
-                        if c is None:
-                            continue
-                        y = exp[(n - 1 - i) * nc + c][wav_seen.index(case['wav'][wi])][1]
-                        if not common.close(y, thr[i][j][1], 1e-12, scale=0.):
-                            return CaseResult(False, violates=None, branches=branches, key=common.canon_hash(case),
-                                              detail='model curve %r differs from theorem right-hand side %r (mode %s fit %d filter %d)'
-                                                     % (float(y), float(thr[i][j][1]), mode, i, j))
+                    # model curve through the theorem's right-hand side (fit i, filter j)
+                    nc = n_shown(case, mode)
+                    order = drawn_fits(case, n)
+                    for b, i in enumerate(order):
+                        for j, wi in enumerate(case['fidx']):
+                            c = shown_index(case, mode, j)
+                            if c is None:
+                                continue
+                            y = exp[b * nc + c][wav_seen.index(case['wav'][wi])][1]
+                            if not common.close(y, thr[i][j][1], knot_tol, scale=0.):
+                                return CaseResult(False, violates=None, branches=branches, key=key,
+                                                  detail='model curve %r differs from theorem right-hand side %r (mode %s fit %d filter %d)'
+                                                         % (float(y), float(thr[i][j][1]), mode, i, j))
         sample = dict(n_models=nm, n_wav=len(case['wav']), apertures=case['aps'], theta=case['theta'],
                       filters_um=[case['wav'][i] for i in case['fidx']], k=case['k'], forms=case['forms'],
-                      distance_range=case['drange'], n_sources=len(case['sources']), pass_through_points=npts)
-        return CaseResult(True, branches=branches, key=common.canon_hash(case), nontrivial=npts > 0,
-                          sample=sample)
+                      select=kind, plot_max=case.get('plot_max'), plot_mode=case.get('plot_mode', 'A'),
+                      subset=case.get('subset'), units=[case.get('wav_unit'), case.get('ap_unit'), case.get('ext_unit')],
+                      av_range=case['av'], distance_range=case['drange'], n_sources=len(case['sources']),
+                      pass_through_points=npts)
+        return CaseResult(True, branches=branches, key=key, nontrivial=npts > 0, sample=sample)
     finally:
         shutil.rmtree(d, ignore_errors=True)
 
@@ -457,11 +664,15 @@ def search(seed, tier, disagreeing):
         d = tempfile.mkdtemp(prefix='c17s_')
         try:
             try:
-                infos, figs = run_impl(case, d)
+                built = build(case, d)
+            except Exception:
+                continue                       # not a C17 matter
+            try:
+                figs = run_plots(case, built)
             except Exception as e:
-                found.append((case, 'implementation raised on an in-domain plot request: %r' % (e,)))
+                found.append((case, 'plot() raised on an in-domain request: %r' % (e,)))
                 continue
-            ok, detail, _ = property_check(case, infos, figs)
+            ok, detail, _ = property_check(case, built, figs)
             if not ok:
                 found.append((case, 'property fails on the real code: ' + detail))
         finally:
